@@ -81,6 +81,14 @@ Inductive case :=
 (* the same exchange in which the client also received interim (1xx) responses before the final one:
    each entry = status code followed by the flattened sorted X-V headers of that interim response *)
 | CInfo (oi : list (list Z)) (c : case)
+(* two observations that the property requires to be EQUAL (relational oracles for behaviour the model does not
+   describe): kind 0 = what a reference http.ServeMux, built by the harness from the same (method, path) list,
+   answers vs what the running server answered (status, index of the handler that ran, Location) - pattern
+   syntax beyond literals: subtrees, "/", {wildcards}, {$}, request paths that need cleaning; kind 1 = the same
+   handler program (possibly ending in a panic) on two servers, one with the configured middleware list and one
+   with LogRequest/LogResponse removed (completed or aborted, status, headers, body received, interim responses,
+   recorder events incl. the panic value seen by outer middleware). *)
+| CSame (kind : Z) (a b : list (list Z))
 | CGrpc (regs : list (Z * Z)) (d res : Z)               (* RegisterImplementation calls; called service; answering impl or -1 *)
 | CGrpcList (regs : list (Z * Z)) (listed : list Z).    (* services the reflection service lists (our descriptors only) *)
 
@@ -214,6 +222,7 @@ Definition exchange_seq (listener : Z) (ops : list cop) (q : reqst) : world :=
 Fixpoint verdict_i (oi : list (list Z)) (c : case) : nat :=
   match c with
   | CInfo oi' c' => verdict_i (oi ++ oi') c'
+  | CSame _ a b => if zzlist_eqb a b then 0%nat else 1%nat
   | CHttp listener calls mw direct rm rp rh rb st oh ob ev =>
       verdict_http oi false listener calls mw direct (exchange listener calls (mw_of mw direct)) rm rp rh rb st oh ob ev
   | CHttpConc listener calls mw direct rm rp rh rb st oh ob ev =>
@@ -273,6 +282,8 @@ Example corr_selftest :
   (* flush, then WriteHeader(404): 200 with and without LogResponse (F13d fixed); 404 behind the wrapper is rejected *)
   /\ verdict (CHttp 0 [(0, 1, [OFlush; OStatus 404; OWrite [9]])] (Some [MLogResp]) false 0 1 [] [] 200 [] [9] [[7; 0]; [6; 0; 1; 404; 9]]) = 0%nat
   /\ verdict (CHttp 0 [(0, 1, [OFlush; OStatus 404; OWrite [9]])] (Some [MLogResp]) false 0 1 [] [] 404 [] [9] [[7; 0]; [6; 0; 1; 404; 9]]) = 1%nat
+  /\ verdict (CSame 0 [[301; -1; 47; 115; 47]] [[301; -1; 47; 115; 47]]) = 0%nat
+  /\ verdict (CSame 0 [[301; -1; 47; 115; 47]] [[200; 2]]) = 1%nat
   /\ verdict (CGrpc [(1, 10); (2, 20); (1, 11)] 1 11) = 0%nat
   /\ verdict (CGrpc [(1, 10)] 3 (-1)) = 0%nat
   /\ verdict (CGrpc [(1, 10)] 1 (-1)) = 1%nat.
